@@ -15,7 +15,7 @@ TECHNIQUE = ('runtime monitoring with fault injection: the real parse_folder.mai
              'injected instead of write number p+1 for every position p, the batch is resumed with -s, and an offline checker compares the final tree and the page-event log with an uninterrupted '
              'reference run; a sample of positions is replayed as real processes killed with os._exit to validate the simulation')
 RULE = ('5 pages x 2 lines (ids a, b.v2, c.jpg_x, d.xml, e.logits.1), cropper + stub OCR; scenario = (subset of the five output kinds, sequence of 1-3 crash positions in 0..#writes, then a final resume). '
-        'quick: 4 subsets x every single crash position + random double/triple crashes + the nothing-to-do run; thorough: all 31 subsets x every single position, pairs of positions on a (2,3)-grid for three '
+        'quick: every single crash position for all five outputs, and for each of the other 30 subsets every position inside the first page, inside a middle page and after the last write, + 30 random double/triple crashes + the nothing-to-do runs; thorough: all 31 subsets x every single position, pairs of positions on a (2,3)-grid for three '
         'subsets, 600 random double/triple crashes, real-process kills. non-trivial = at least one crash strictly inside the batch; distinct = hash of (subset, crash sequence)')
 ASSUMPTIONS = ['a kill happens between two output writes (a write itself is atomic); simulated by raising a BaseException subclass instead of the next write, validated against real os._exit kills',
                'outputs are compared modulo Created/LastChange/processingDateTime; logits by unpickled content; JPEGs byte-wise', '"complete page" = all its requested outputs exist when the run starts']
@@ -45,19 +45,24 @@ def scenarios(tier, seed):
     out = []
     subsets = [list(c) for r in range(1, 6) for c in itertools.combinations(ALL, r)]
     if tier == 'quick':
-        chosen = [ALL, ['xml', 'logits', 'alto'], ['xml', 'line'], ['line']]
-        extra_sub = [subsets[int(k)] for k in rng.choice(len(subsets), size=4, replace=False)]
+        chosen = [ALL]
     else:
-        chosen, extra_sub = subsets, []
+        chosen = subsets
     for kinds in chosen:
         nw = writes_of(kinds)
         out.append((kinds, ()))
         for p in range(nw + 1):
             out.append((kinds, (p,)))
-    for kinds in extra_sub:
-        nw = writes_of(kinds)
-        for p in [int(x) for x in rng.integers(0, nw + 1, size=6)]:      # fixed count: the number of scenarios must not depend on the seed
-            out.append((kinds, (p,)))
+    if tier == 'quick':
+        # every configuration: every crash position inside the FIRST page (output folders still empty) and inside a middle page, and after the last write
+        for kinds in subsets:
+            if kinds == ALL:
+                continue
+            nw = writes_of(kinds)
+            pp = nw // len(IDS)
+            out.append((kinds, ()))
+            for p in sorted(set(list(range(0, pp + 1)) + list(range(2 * pp, 3 * pp + 1)) + [nw])):
+                out.append((kinds, (p,)))
     if tier == 'thorough':
         for kinds in (ALL, ['xml', 'logits', 'alto'], ['render', 'line']):
             nw = writes_of(kinds)
